@@ -206,6 +206,21 @@ def order(model):
     }
 
 
+def _solver_tolerances(model):
+    """What the solver itself is configured with (Model.tolerance sets all of them; a copy must carry all of them)."""
+    out = {}
+    try:
+        tol = model.solver.configuration.tolerances
+    except Exception:
+        return out
+    for name in ("feasibility", "optimality", "integrality"):
+        try:
+            out[name] = float(getattr(tol, name))
+        except Exception:
+            pass
+    return out
+
+
 def snap(model, lp=True):
     s = {
         "content": content(model),
@@ -214,6 +229,7 @@ def snap(model, lp=True):
         "cfg": {
             "interface": model.solver.interface.__name__,
             "tolerance": model.tolerance,
+            "solver_tolerances": _solver_tolerances(model),
             "depth": len(getattr(model, "_contexts", []) or []),
         },
     }
